@@ -59,4 +59,19 @@ theorem any_interleaving (reg : Registry) (sent order : List (Bytes × Msg)) (hp
   rw [stream_of_whole_frames reg order hev' (order.length + 1) (Nat.lt_succ_self _)]
   exact ⟨hp.map _, rfl⟩
 
+/-- **why a frame must be ONE write**: two frames A and B; A is written in two pieces (head, then the
+    rest – what a vectored write degrades to on a connection that is not a bare socket) and B's single
+    write lands between them.  The peer does not decode A and B from that stream, in either order –
+    which is why `sites_ok` is an obligation -/
+theorem split_write_tears_frames :
+    let fa : Bytes := [0x08#8, 0, 0, 0, 0, 0, 0, 0, 0, 0, 0, 9] ++ be32 18 ++ be32 1 ++ [0x41#8] ++ be32 1 ++ [0x42#8] ++ be32 0 ++ be32 0
+    let fb : Bytes := [0x08#8, 0, 0, 0, 0, 0, 0, 0, 0, 0, 0, 7] ++ be32 18 ++ be32 1 ++ [0x43#8] ++ be32 1 ++ [0x44#8] ++ be32 0 ++ be32 0
+    -- whole-frame writes, either order: two messages, no error
+    ((decodeAll ⟨0, fun _ => none⟩ 3 (fa ++ fb)).1.length = 2 ∧ (decodeAll ⟨0, fun _ => none⟩ 3 (fa ++ fb)).2 = none)
+    -- A's head (16 bytes), then B, then A's rest: not the two messages
+    ∧ ¬ ((decodeAll ⟨0, fun _ => none⟩ 3 (fa.take 16 ++ fb ++ fa.drop 16)).1.length = 2
+          ∧ (decodeAll ⟨0, fun _ => none⟩ 3 (fa.take 16 ++ fb ++ fa.drop 16)).2 = none) := by
+  decide +kernel
+
+
 end Rpcx.Props.C08
